@@ -89,6 +89,11 @@ def c07():
         R("c07-reverse-t-sign", "C07", ARK, "            self.func = lambda t, y: -fcn(-t, y.reshape(yshape), *params).reshape(-1)", "            self.func = lambda t, y: -fcn(t, y.reshape(yshape), *params).reshape(-1)", "C07-V"),
         R("c07-reverse-test", "C07", ARK, "        if direction < 0:", "        if direction > 0:", "C07-V"),
         R("c07-reverse-params", "C07", ARK, "            self.func = lambda t, y: -fcn(-t, y.reshape(yshape), *params).reshape(-1)", "            self.func = lambda t, y: -fcn(-t, y.reshape(yshape)).reshape(-1)", "C07-V"),
+        R("c07-reverse-sign-form-correct", "C07", ARK, "        direction = ts[1] - ts[0]\n        if direction < 0:\n            self.ts = -ts\n            self.func = lambda t, y: -fcn(-t, y.reshape(yshape), *params).reshape(-1)\n        else:\n            self.ts = ts\n            self.func = lambda t, y: fcn(t, y.reshape(yshape), *params).reshape(-1)",
+          "        sign = -1.0 if ts[1] < ts[0] else 1.0\n        self.ts = sign * ts\n        self.func = lambda t, y: sign * fcn(sign * t, y.reshape(yshape), *params).reshape(-1)", None, expect="silent",
+          note="a correct single-expression spelling of the reversal"),
+        R("c07-reverse-sign-form-wrong", "C07", ARK, "        direction = ts[1] - ts[0]\n        if direction < 0:\n            self.ts = -ts\n            self.func = lambda t, y: -fcn(-t, y.reshape(yshape), *params).reshape(-1)\n        else:\n            self.ts = ts\n            self.func = lambda t, y: fcn(t, y.reshape(yshape), *params).reshape(-1)",
+          "        sign = -1.0 if ts[1] < ts[0] else 1.0\n        self.ts = sign * ts\n        self.func = lambda t, y: sign * fcn(t, y.reshape(yshape), *params).reshape(-1)", "C07-V"),
         # ---- tuple states
         R("c07-tuple-result-not-packed", "C07", IVP, "        return roller.pack(res)", "        return roller.pack(y0)", "C07-P"),
         R("c07-packer-offset", "C07", MISC, "            istart = ifinish\n\n    def flatten", "            istart = ifinish + 0 * i\n            istart = istart if i else ifinish - 0\n\n    def flatten", None, expect="undetected", note="placeholder removed below"),
